@@ -299,3 +299,5 @@ def run(ctx):
     ctx.run("C15.CPU-GE1", "R-ARITH", cpu_ge1)
     ctx.run("C15.CPU-MIN", "R-ARITH", cpu_min)
     ctx.run("C15.NEST", "R-TABLE", nest)
+    from . import c17
+    ctx.run("C17.HINT", "R-ORDER", c17.hint)
